@@ -42,11 +42,23 @@ theorem C02aux_hdrEnc_shape (crc : Bytes → Nat) (t : Table) (primary : Bool) (
         (if primary then t.secondaryHeader else t.primaryHeader) t.firstData t.lastData t.guid
         (arraySector t primary) t.arrCount 0x80 (crc arr) ++ zeros (t.lss - 92) := rfl
 
-/-- the last two writes are the primary array at LBA 2 and the primary header at LBA 1 -/
+theorem readAt_applyWrs_disjoint (d : Dev) (ws : List Wr) (off len : Nat)
+    (h : ∀ w ∈ ws, off + len ≤ w.off ∨ w.off + w.data.length ≤ off) :
+    readAt (applyWrs d ws) off len = readAt d off len := by
+  induction ws generalizing d with
+  | nil => rfl
+  | cons w ws ih =>
+    have : applyWrs d (w :: ws) = applyWrs (applyWr d w) ws := rfl
+    rw [this, ih (applyWr d w) (fun x hx => h x (List.mem_cons_of_mem _ hx))]
+    exact readAt_applyWr_disjoint d w off len (h w (List.mem_cons_self ..))
+
+/-- the primary array at LBA 2 and the primary header at LBA 1 are the last writes to their regions:
+    after them comes at most the protective-MBR write (bytes 446..511), when it is written last -/
 theorem write_fresh_shape (c : Cfg) (crc : Bytes → Nat) (t0 : Table) (size : Nat) (ws : List Wr) (t : Table)
     (hf : Fresh t0) (hlss : t0.lss = 512 ∨ t0.lss = 4096) (hsz : size < two63)
     (hw : write c crc t0 size = .ok (ws, t)) :
-    ∃ pre arr ps, ws = pre ++ [⟨2 * t0.lss, arr⟩, ⟨t0.lss, hdrEnc crc (initTable t0 size) true arr⟩] ∧
+    ∃ pre post arr ps, ws = pre ++ [⟨2 * t0.lss, arr⟩, ⟨t0.lss, hdrEnc crc (initTable t0 size) true arr⟩] ++ post ∧
+      (∀ w ∈ post, w.off = 446 ∧ w.data.length = 66) ∧
       arrEnc c (initTable t0 size) = .ok (arr, ps) ∧ t = { initTable t0 size with parts := ps } := by
   unfold write at hw
   simp only [hf.init, Bool.false_eq_true, if_false] at hw
@@ -69,11 +81,25 @@ theorem write_fresh_shape (c : Cfg) (crc : Bytes → Nat) (t0 : Table) (size : N
           have : arraySector ti true = 2 := by simp [arraySector, hph, u64, two64]
           rw [this, hl]
           rcases hlss with h | h <;> simp [h, toI64, two64, two63]
-        refine ⟨(if ti.pmbr = true then [Wr.mk 446 (pmbrEnc c ti)] else []) ++
-          [⟨(toI64 ((ti.lss : Int) * toI64 ((arraySector ti false : Nat) : Int))).toNat, arr⟩,
-           ⟨(toI64 (toI64 ((ti.secondaryHeader : Nat) : Int) * (ti.lss : Int))).toNat, hdrEnc crc ti false arr⟩], arr, ps, ?_, harr, h2.symm⟩
-        rw [← h1, hoff]
-        simp [hl]
+        have hpm : ∀ w ∈ (if ti.pmbr = true then [Wr.mk 446 (pmbrEnc c ti)] else []), w.off = 446 ∧ w.data.length = 66 := by
+          intro w hw
+          split at hw
+          · simp only [List.mem_singleton] at hw; subst hw; simp [pmbrEnc]
+          · simp at hw
+        cases hpl : c.pmbrLast with
+        | false =>
+          refine ⟨(if ti.pmbr = true then [Wr.mk 446 (pmbrEnc c ti)] else []) ++
+            [⟨(toI64 ((ti.lss : Int) * toI64 ((arraySector ti false : Nat) : Int))).toNat, arr⟩,
+             ⟨(toI64 (toI64 ((ti.secondaryHeader : Nat) : Int) * (ti.lss : Int))).toNat, hdrEnc crc ti false arr⟩], [], arr, ps,
+            ?_, by simp, harr, h2.symm⟩
+          rw [← h1, hoff]
+          simp [hl, hpl]
+        | true =>
+          refine ⟨[⟨(toI64 ((ti.lss : Int) * toI64 ((arraySector ti false : Nat) : Int))).toNat, arr⟩,
+             ⟨(toI64 (toI64 ((ti.secondaryHeader : Nat) : Int) * (ti.lss : Int))).toNat, hdrEnc crc ti false arr⟩],
+            (if ti.pmbr = true then [Wr.mk 446 (pmbrEnc c ti)] else []), arr, ps, ?_, hpm, harr, h2.symm⟩
+          rw [← h1, hoff]
+          simp [hl, hpl]
 
 /-- loadEntries on the standard geometry (array of 128 x 128 bytes at LBA 2) with the array on the device -/
 theorem loadEntries_std (c : Cfg) (crc : Bytes → Nat) (dev : Dev) (size lss : Nat) (tt : Table) (arr : Bytes)
@@ -137,7 +163,7 @@ theorem read_write_fresh (c : Cfg) (crc : Bytes → Nat) (hcrc : ∀ b, crc b < 
     ∃ t', (read c crc (applyWrs d ws) size t0.lss).1 = .ok t' ∧ t'.parts = normParts t.parts 128 ∧
       t'.guid = t0.guid ∧ t'.backup = false ∧ t'.primaryHeader = 1 ∧ t'.secondaryHeader = t.secondaryHeader ∧
       t'.firstData = t.firstData ∧ t'.lastData = t.lastData := by
-  obtain ⟨pre, arr, ps, hws, harr, ht⟩ := write_fresh_shape c crc t0 size ws t hf hlss hsz hw
+  obtain ⟨pre, post, arr, ps, hws, hpost, harr, ht⟩ := write_fresh_shape c crc t0 size ws t hf hlss hsz hw
   obtain ⟨il, iph, iac, ies, igu, ipa, ish, ifd, ild⟩ := initTable_fresh t0 size hf hlss
   generalize hti : initTable t0 size = ti at *
   have hlpos : 0 < t0.lss := by rcases hlss with h | h <;> omega
@@ -158,19 +184,25 @@ theorem read_write_fresh (c : Cfg) (crc : Bytes → Nat) (hcrc : ∀ b, crc b < 
     obtain ⟨harrlen, hdecode⟩ := decodeArr_slots c ps' t0.lss hex b hb
     -- the device
     subst hws
-    rw [applyWrs_append2]
+    have hsplit : applyWrs d (pre ++ [⟨2 * t0.lss, b⟩, ⟨t0.lss, hdrEnc crc ti true b⟩] ++ post)
+        = applyWrs (applyWr (applyWr (applyWrs d pre) ⟨2 * t0.lss, b⟩) ⟨t0.lss, hdrEnc crc ti true b⟩) post := by
+      simp [applyWrs, List.foldl_append]
+    rw [hsplit]
     generalize applyWrs d pre = d1
     have hphlen : (hdrEnc crc ti true b).length = t0.lss := by
       rw [hdrEnc_length crc ti true b (by rw [igu]; exact hg) hl92, il]
-    have r1 : readAt (applyWr (applyWr d1 ⟨2 * t0.lss, b⟩) ⟨t0.lss, hdrEnc crc ti true b⟩) t0.lss t0.lss
+    have h512 : 512 ≤ t0.lss := by rcases hlss with h | h <;> omega
+    have r1 : readAt (applyWrs (applyWr (applyWr d1 ⟨2 * t0.lss, b⟩) ⟨t0.lss, hdrEnc crc ti true b⟩) post) t0.lss t0.lss
         = hdrEnc crc ti true b := by
+      rw [readAt_applyWrs_disjoint _ post _ _ (by intro w hw; have := hpost w hw; right; omega)]
       have := readAt_applyWr_same (applyWr d1 ⟨2 * t0.lss, b⟩) ⟨t0.lss, hdrEnc crc ti true b⟩
       simpa [hphlen] using this
-    have r2 : readAt (applyWr (applyWr d1 ⟨2 * t0.lss, b⟩) ⟨t0.lss, hdrEnc crc ti true b⟩) (2 * t0.lss) 16384 = b := by
+    have r2 : readAt (applyWrs (applyWr (applyWr d1 ⟨2 * t0.lss, b⟩) ⟨t0.lss, hdrEnc crc ti true b⟩) post) (2 * t0.lss) 16384 = b := by
+      rw [readAt_applyWrs_disjoint _ post _ _ (by intro w hw; have := hpost w hw; right; omega)]
       rw [readAt_applyWr_disjoint _ _ _ _ (by right; simp [hphlen]; omega)]
       have := readAt_applyWr_same d1 ⟨2 * t0.lss, b⟩
       simpa [harrlen] using this
-    generalize applyWr (applyWr d1 ⟨2 * t0.lss, b⟩) ⟨t0.lss, hdrEnc crc ti true b⟩ = dev at r1 r2
+    generalize applyWrs (applyWr (applyWr d1 ⟨2 * t0.lss, b⟩) ⟨t0.lss, hdrEnc crc ti true b⟩) post = dev at r1 r2
     -- the header
     have hhdr : readHeader crc (hdrEnc crc ti true b) = .ok
         { myLBA := 1, altLBA := ti.secondaryHeader, firstData := ti.firstData, lastData := ti.lastData, guid := t0.guid,
